@@ -136,27 +136,46 @@ Fixpoint dec_pairs (n : nat) (l : list Z) : option (list (Z * Z) * list Z) :=
     end
   end.
 
-Definition samstep (s : sampled) (o : list Z) : option (sampled * list Z) :=
+Inductive samop :=
+| SInc (k c : Z) | SUpd (k c : Z) | SRem (k : Z) | SClear | SMax (mc : Z) | SGetMax | SRoom (c : Z)
+| SFill (input appended : list (Z * Z)).
+
+Definition dec_samop (o : list Z) : option samop :=
   match o with
-  | [110; k; c] | [111; _; c; k] => Some (sam_increment s k c, [])
-  | [112; k; c] | [113; _; c; k] => let '(s', b) := sam_update s k c in Some (s', [zb b])
-  | [114; k] | [115; _; k] => let '(s', r) := sam_remove s k in Some (s', enc_opt_v r)
-  | [116] => Some (sam_clear s, [])
-  | [117; mc] => Some (sam_update_max s mc, [])
-  | [118] => Some (s, [smax s])
-  | [119; c] => Some (s, [sam_room_left s c])
+  | [110; k; c] | [111; _; c; k] => Some (SInc k c)
+  | [112; k; c] | [113; _; c; k] => Some (SUpd k c)
+  | [114; k] | [115; _; k] => Some (SRem k)
+  | [116] => Some SClear
+  | [117; mc] => Some (SMax mc)
+  | [118] => Some SGetMax
+  | [119; c] => Some (SRoom c)
   | 120 :: nin :: rest =>
     (* fill_sample: input pairs, then the pairs the real call appended (validated) *)
     match dec_pairs (Z.to_nat nin) rest with
     | Some (input, napp :: rest') =>
       match dec_pairs (Z.to_nat napp) rest' with
-      | Some (appended, []) => Some (s, [zb (sam_fill_valid s input appended)])
+      | Some (appended, []) => Some (SFill input appended)
       | _ => None
       end
     | _ => None
     end
   | _ => None
   end.
+
+Definition samstep_t (s : sampled) (o : samop) : sampled * list Z :=
+  match o with
+  | SInc k c => (sam_increment s k c, [])
+  | SUpd k c => let '(s', b) := sam_update s k c in (s', [zb b])
+  | SRem k => let '(s', r) := sam_remove s k in (s', enc_opt_v r)
+  | SClear => (sam_clear s, [])
+  | SMax mc => (sam_update_max s mc, [])
+  | SGetMax => (s, [smax s])
+  | SRoom c => (s, [sam_room_left s c])
+  | SFill input appended => (s, [zb (sam_fill_valid s input appended)])
+  end.
+
+Definition samstep (s : sampled) (o : list Z) : option (sampled * list Z) :=
+  option_map (samstep_t s) (dec_samop o).
 
 Definition samstep_enc (s : sampled) (o : list Z) : option (sampled * list Z * list Z) :=
   match samstep s o with Some (s', out) => Some (s', out, [0]) | None => None end.
